@@ -167,6 +167,96 @@ def _closure(args):
             "sample": [list(e) for e in (sample or ())]}
 
 
+# ---- scratch registers TEMP0..TEMP13: named, 24 bits wide, independent of each other and of everything else ----------
+
+TEMPS = [f"TEMP{i}" for i in range(14)]
+TMASK = 0xFFFFFF
+
+
+def _scratch_judge(hist, rs_out, vb: VB) -> Tuple:
+    want_t = {t: 0 for t in TEMPS}
+    ref = RefRegs()
+    for tgt, v in hist:
+        if tgt in want_t:
+            want_t[tgt] = v & TMASK
+        else:
+            ref.set(tgt, v)
+    want = ref.readall()
+    last = hist[-1][0] if hist else "-"
+    wit = lambda: {"scratch": True, "history": [[t, v] for t, v in hist]}  # noqa: E731
+    try:
+        regs = Registers()
+        for tgt, v in hist:
+            regs.set(RegisterName[tgt], v)
+        py_t = {t: regs.get(RegisterName[t]) for t in TEMPS}
+        py_a = {n: regs.get(RegisterName[n]) for n in NAMES}
+        snap = CPURegistersSnapshot.from_registers(regs)
+        fresh = Registers()
+        snap.apply_to(fresh)
+        fr_t = {t: fresh.get(RegisterName[t]) for t in TEMPS}
+        fr_a = {n: fresh.get(RegisterName[n]) for n in NAMES}
+        dct = snap.to_dict()
+    except Exception as exc:  # noqa: BLE001
+        vb.add(f"C08/scratch/py-raises/{type(exc).__name__}/{last}", f"python raised {exc!r} on {hist}", wit)
+        return tuple(want_t.values())
+    for t in TEMPS:
+        if py_t[t] != want_t[t]:
+            vb.add(f"C08/scratch/py-read/{t}/after-write-{last}", f"python: after {hist} reading {t} gives {py_t[t]:#x}, expected {want_t[t]:#x}", wit)
+        if fr_t[t] != want_t[t]:
+            vb.add(f"C08/scratch/py-snapshot-roundtrip/{t}", f"python: snapshot->fresh {t}={fr_t[t]:#x} expected {want_t[t]:#x} after {hist}", wit)
+        if (dct.get(t, 0) or 0) != want_t[t]:
+            vb.add(f"C08/scratch/py-snapshot-to_dict/{t}", f"python: to_dict()[{t}]={dct.get(t)} expected {want_t[t]:#x} after {hist}", wit)
+    for n in NAMES:
+        if py_a[n] != want[n]:
+            vb.add(f"C08/scratch/py-read/{n}/after-write-{last}", f"python: after {hist} reading {n} gives {py_a[n]:#x}, expected {want[n]:#x}", wit)
+        if fr_a[n] != want[n]:
+            vb.add(f"C08/scratch/py-snapshot-roundtrip/{n}", f"python: snapshot->fresh {n}={fr_a[n]:#x} expected {want[n]:#x} after {hist}", wit)
+    if rs_out is not None:
+        if "panic" in rs_out or "err" in rs_out:
+            vb.add(f"C08/scratch/rust-error/{last}", f"rust harness error {rs_out} on {hist}", wit)
+            return tuple(want_t.values())
+        reads, snap_r = rs_out["out"][0], rs_out["out"][1]
+        for t in TEMPS:
+            if reads[t] != want_t[t]:
+                vb.add(f"C08/scratch/rust-read/{t}/after-write-{last}", f"rust: after {hist} reading {t} gives {reads[t]:#x}, expected {want_t[t]:#x} "
+                       f"(python {py_t[t]:#x})", wit)
+            if snap_r["fresh"][t] != want_t[t]:
+                vb.add(f"C08/scratch/rust-snapshot-roundtrip/{t}", f"rust: collect/apply gives {t}={snap_r['fresh'][t]:#x} expected {want_t[t]:#x} after {hist}", wit)
+            if snap_r["collected"].get(t) != want_t[t]:
+                vb.add(f"C08/scratch/rust-collected/{t}", f"rust: collect_registers()[{t}]={snap_r['collected'].get(t)} expected {want_t[t]:#x} after {hist}", wit)
+        for n in NAMES:
+            if reads[n] != want[n]:
+                vb.add(f"C08/scratch/rust-read/{n}/after-write-{last}", f"rust: after {hist} reading {n} gives {reads[n]:#x}, expected {want[n]:#x}", wit)
+            if snap_r["fresh"][n] != want[n]:
+                vb.add(f"C08/scratch/rust-snapshot-roundtrip/{n}", f"rust: collect/apply gives {n}={snap_r['fresh'][n]:#x} expected {want[n]:#x} after {hist}", wit)
+    return tuple(want_t.values()) + tuple(want[n] for n in NAMES)
+
+
+def _scratch_script(hist):
+    return {"cmd": "regs", "script": [{"set": [t, v & 0xFFFFFFFF]} for t, v in hist] + [{"readall": 1, "temps": True}, {"snap_map": 1}]}
+
+
+def _scratch_shard(args):
+    firsts, events, depth = args
+    h = rb.harness()
+    vb = VB()
+    n = 0
+    outcomes = set()
+    for e1 in firsts:
+        hists = [(e1,)]
+        if depth >= 2:
+            hists += [(e1, e2) for e2 in events]
+        if depth >= 3:
+            hists += [(e1, e2, e3) for e2 in events for e3 in events]
+        for i in range(0, len(hists), 2000):
+            part = hists[i:i + 2000]
+            outs = h.batch([_scratch_script(x) for x in part])
+            for hist, o in zip(part, outs):
+                outcomes.add(_scratch_judge(hist, o, vb))
+                n += 1
+    return {"n": n, "vb": vb, "outcomes": len(outcomes)}
+
+
 def run(ctx) -> None:
     rb.build()
     palette = list(PALETTE)
@@ -182,17 +272,32 @@ def run(ctx) -> None:
     firsts = [(t, v) for t in TARGETS for v in full_palette]
     res = pmap(_shard_full, [(s, depth, full_palette) for s in chunks(firsts, nproc() * 2)])
     clo = pmap(_closure, [(g, t, palette) for g, t in GROUPS.items()])
+    tvals = [1, 0xFFFFFF, 0x1234567, 0xA5A5A5A5]
+    arch = [("BA", 0x1234), ("X", 0xFFFFF), ("F", 3), ("PC", 0xFFFFF), ("I", 0xFFFF)]
+    if ctx.thorough:
+        sev = [(t, v) for t in TEMPS for v in tvals[1:3]] + arch[:2]
+        sdepth = 3
+    else:
+        sev = [(t, v) for t in TEMPS for v in tvals] + arch
+        sdepth = 2
+    sres = pmap(_scratch_shard, [(c, sev, sdepth) for c in chunks(sev, nproc() * 2)])
+    if ctx.thorough:
+        sev2 = [(t, v) for t in TEMPS for v in tvals] + arch
+        sres += pmap(_scratch_shard, [(c, sev2, 2) for c in chunks(sev2, nproc() * 2)])
     for r in res:
         ctx.merge_bucket(r["vb"])
     for r in clo:
         ctx.merge_bucket(r["vb"])
-    nseq = sum(r["n"] for r in res)
+    for r in sres:
+        ctx.merge_bucket(r["vb"])
+    nseq = sum(r["n"] for r in res) + sum(r["n"] for r in sres)
     ctx.level = "model_checking"
     ctx.coverage.update({
         "states": sum(r["states"] for r in clo) + sum(r["outcomes"] for r in res),
         "transitions": sum(r["transitions"] for r in clo) + nseq,
         "traces_validated_against_impl": sum(r["transitions"] for r in clo) + nseq,
         "full_alphabet_sequences": nseq,
+        "scratch_register_sequences": sum(r["n"] for r in sres),
         "full_alphabet_depth": depth,
         "closure_per_group": {r["group"]: {"states": r["states"], "transitions": r["transitions"], "depth": r["depth"]} for r in clo},
         "exhaustive": True,
@@ -200,7 +305,8 @@ def run(ctx) -> None:
                  "(no dedup), plus BFS to closure inside each alias group with the full palette "
                  f"({len(palette)} values), dedup on the reference read vector; after every write all 14 names are read "
                  "on Python Registers and Rust LlamaState and compared with the reference register file; snapshot "
-                 "round trips and register blobs compared in every state"),
+                 "round trips and register blobs compared in every state; the 14 scratch registers TEMP0-13 (24 bits, named in both cores and carried by "
+                 f"snapshots): all write sequences <= {sdepth} over 14 x {len(tvals) if not ctx.thorough else 2} scratch writes interleaved with architectural writes, every name read, snapshot map round trip"),
         "samples": [{"full": [["BA", 0x12345], ["IL", 0x1FF]]}] + [{"closure_" + r["group"]: r["sample"]} for r in clo[:3]],
     })
     ctx.assumptions += ["hidden representation differences that no read can observe are not distinguished",
@@ -211,6 +317,11 @@ def replay(ctx, w) -> Optional[str]:
     rb.build()
     hist = tuple((t, v) for t, v in w["history"])
     vb = VB()
+    if w.get("scratch"):
+        _scratch_judge(hist, rb.harness().call(_scratch_script(hist)), vb)
+        for sig, (cnt, wl) in vb.d.items():
+            return wl[0][0]
+        return None
     judge(hist, rb.harness().call(rs_script(hist)), vb)
     for sig, (cnt, wl) in vb.d.items():
         return wl[0][0]
